@@ -60,6 +60,14 @@ def enumerate_cases(tier):
                    calls=[{"op": "smeta", "pid": "p", "fmt": F, "d": 1}, {"op": "smeta", "pid": "p", "fmt": F, "d": 2},
                           {"op": "smeta", "pid": "q", "fmt": F, "d": 0}],
                    preemptions=[list(x) for x in c07.hwp_preemptions(a)], family="holder-waiter-passer-by")
+    # ... and with a DELETER parked between its existence check and its removal
+    docs = [{"op": "smeta", "pid": "p", "fmt": F, "d": 0}, {"op": "smeta", "pid": "p", "fmt": None, "d": 0}]
+    for waiter in ({"op": "dmeta", "pid": "p", "fmt": F}, {"op": "dmeta", "pid": "p", "fmt": None}):
+        for passer in ({"op": "smeta", "pid": "q", "fmt": F, "d": 0}, {"op": "smeta", "pid": "p", "fmt": "fmt:other", "d": 1}):
+            for a in (range(1, 14) if tier == "quick" else range(1, 30)):
+                yield dict(BASE, start_name="hwp:metadata-doc-delete", start=docs, mode="gen", order=[0, 1, 2],
+                           calls=[{"op": "dmeta", "pid": "p", "fmt": F}, waiter, passer],
+                           preemptions=[list(x) for x in c07.hwp_preemptions(a)], family="holder-waiter-passer-by")
     for sname in STARTS:
         for a, b in itertools.combinations_with_replacement(range(len(MENU)), 2):
             two = tier == "thorough" or (has_delete(MENU[a]) and has_delete(MENU[b]))
